@@ -375,7 +375,113 @@ SUGAR = [
     cols={'S': ['col0', 'logica_value'], 'L': ['col0', 'logica_value']}, tags=('C11',)),
 ]
 
-ALL = CORE + AGG + ORDER + SUGAR
+def iterate(step, n, preds):
+  """n simultaneous applications of the rules (the operator T) starting from empty relations."""
+  st = {p: [] for p in preds}
+  for _ in range(n):
+    st = step(st)
+  return st
+
+
+def _tc_step(db):
+  return lambda st: {'TC': sorted(set(db['E']) | {(x, z) for (x, y) in st['TC'] for (y2, z) in db['E'] if y == y2})}
+
+
+def _tc(db, depth):
+  return iterate(_tc_step(db), depth + 1, ['TC'])['TC']
+
+
+def _eo_step(db, bound):
+  return lambda st: {'Even': sorted(set(db['Z']) | {(x + 1,) for (x,) in st['Odd'] if x < bound}),
+                     'Odd': sorted({(x + 1,) for (x,) in st['Even'] if x < bound})}
+
+
+def _tri_step(db, bound):
+  def step(st):
+    up = lambda rs: {(x + 1,) for (x,) in rs if x < bound}
+    return {'A': sorted(set(db['Z']) | up(st['B']) | up(st['C'])),
+            'B': sorted(up(st['A']) | up(st['C'])),
+            'C': sorted(up(st['A']) | up(st['B']))}
+  return step
+
+
+def _sp_step(db):
+  def step(st):
+    cand = {}
+    for (x,) in db['Z']:
+      cand.setdefault(x, []).append(0)
+    d = dict(st['D'])
+    for (x, y) in db['E']:
+      if x in d:
+        cand.setdefault(y, []).append(d[x] + 1)
+    return {'D': sorted((k, min(v)) for k, v in cand.items())}
+  return step
+
+
+TCP = 'TC(x, y) distinct :- E(x, y);\nTC(x, z) distinct :- TC(x, y), E(y, z);\n'
+
+RECURSION = [
+  S('rec_tc_default', TCP + 'Reach(y) :- TC(0, y);', {'E': 2},
+    {'TC': lambda db: _tc(db, 8), 'Reach': lambda db: [(y,) for (x, y) in _tc(db, 8) if x == 0]},
+    tags=('C03',), max_rows={'quick': 3, 'thorough': 4}, cap={'quick': 120, 'thorough': 1500}),
+  S('rec_tc_depth1', '@Recursive(TC, 1);\n' + TCP, {'E': 2}, {'TC': lambda db: _tc(db, 1)},
+    tags=('C03',), max_rows={'quick': 3, 'thorough': 4}, cap={'quick': 120, 'thorough': 1500}),
+  S('rec_tc_depth2', '@Recursive(TC, 2);\n' + TCP, {'E': 2}, {'TC': lambda db: _tc(db, 2)},
+    tags=('C03',), max_rows={'quick': 3, 'thorough': 4}, domain=[0, 1, 2, 3], cap={'quick': 120, 'thorough': 1500}),
+  S('rec_tc_depth0', '@Recursive(TC, 0);\n' + TCP, {'E': 2}, {'TC': lambda db: _tc(db, 0)},
+    tags=('C03-skip',), max_rows={'quick': 2, 'thorough': 3}),
+  # mutual recursion whose cycle is cut by one predicate (vertical unfolding): result within the bound
+  # contains everything derivable and nothing outside the least fixpoint; bounds chosen so that it converges
+  S('rec_even_odd', 'Even(x) distinct :- Z(x);\nEven(x + 1) distinct :- Odd(x), x < 4;\n'
+    'Odd(x + 1) distinct :- Even(x), x < 4;', {'Z': 1},
+    {'Even': lambda db: iterate(_eo_step(db, 4), 12, ['Even', 'Odd'])['Even'],
+     'Odd': lambda db: iterate(_eo_step(db, 4), 12, ['Even', 'Odd'])['Odd']},
+    tags=('C03',), domain=[0, 1, 3]),
+  S('rec_even_odd_bag', 'Even(x) :- Z(x);\nEven(x + 1) :- Odd(x), x < 3;\nOdd(x + 1) :- Even(x), x < 3;', {'Z': 1},
+    {'Even': lambda db: [(x + k,) for (x,) in db['Z'] for k in (0, 2, 4) if k == 0 or x + k - 1 < 3 and all(x + j < 3 for j in range(k))],
+     'Odd': lambda db: [(x + k,) for (x,) in db['Z'] for k in (1, 3) if all(x + j < 3 for j in range(k))]},
+    tags=('C03',), domain=[0, 1, 3]),
+  # three predicates, every pair on a cycle: no single predicate cuts the cover (flat unfolding):
+  # exactly depth+1 simultaneous applications
+  S('rec_triangle_depth2', '@Recursive(A, 2);\nA(x) distinct :- Z(x);\nA(x + 1) distinct :- B(x), x < 9;\n'
+    'A(x + 1) distinct :- C(x), x < 9;\nB(x + 1) distinct :- A(x), x < 9;\nB(x + 1) distinct :- C(x), x < 9;\n'
+    'C(x + 1) distinct :- A(x), x < 9;\nC(x + 1) distinct :- B(x), x < 9;', {'Z': 1},
+    {'A': lambda db: iterate(_tri_step(db, 9), 3, 'ABC')['A'],
+     'B': lambda db: iterate(_tri_step(db, 9), 3, 'ABC')['B'],
+     'C': lambda db: iterate(_tri_step(db, 9), 3, 'ABC')['C']},
+    tags=('C03',), domain=[0, 2]),
+  S('rec_triangle_default', 'A(x) distinct :- Z(x);\nA(x + 1) distinct :- B(x), x < 9;\n'
+    'A(x + 1) distinct :- C(x), x < 9;\nB(x + 1) distinct :- A(x), x < 9;\nB(x + 1) distinct :- C(x), x < 9;\n'
+    'C(x + 1) distinct :- A(x), x < 9;\nC(x + 1) distinct :- B(x), x < 9;', {'Z': 1},
+    {'A': lambda db: iterate(_tri_step(db, 9), 9, 'ABC')['A'],
+     'C': lambda db: iterate(_tri_step(db, 9), 9, 'ABC')['C']},
+    tags=('C03',), domain=[0, 2], max_rows={'quick': 1, 'thorough': 2}),
+  S('rec_shortest_path', 'D(x) Min= 0 :- Z(x);\nD(y) Min= D(x) + 1 :- E(x, y);', {'Z': 1, 'E': 2},
+    {'D': lambda db: iterate(_sp_step(db), 9, ['D'])['D']},
+    tags=('C03',), max_rows={'quick': 2, 'thorough': 3}, cap={'quick': 150, 'thorough': 1500}),
+  # deep recursion switches to iterative execution (@Iteration, run as a workflow)
+  S('rec_iter_chain21', '@Recursive(N, 21);\nN(x) distinct :- Z(x);\nN(x + 1) distinct :- N(x);', {'Z': 1},
+    {'N': lambda db: sorted({(x + k,) for (x,) in db['Z'] for k in range(22)})},
+    tags=('C03', 'C14'), workflow=True, max_rows={'quick': 1, 'thorough': 2}),
+  S('rec_iter_chain22', '@Recursive(N, 22);\nN(x) distinct :- Z(x);\nN(x + 1) distinct :- N(x);', {'Z': 1},
+    {'N': lambda db: sorted({(x + k,) for (x,) in db['Z'] for k in range(23)})},
+    tags=('C03', 'C14'), workflow=True, max_rows={'quick': 1, 'thorough': 2}),
+  S('rec_iter_tc25', '@Recursive(TC, 25);\n' + TCP, {'E': 2}, {'TC': lambda db: _tc(db, 25)},
+    tags=('C03', 'C14'), workflow=True, max_rows={'quick': 2, 'thorough': 3}, cap={'quick': 30, 'thorough': 200}),
+  S('rec_iter_even_odd23', '@Recursive(Even, 23);\nEven(x) distinct :- Z(x);\nEven(x + 1) distinct :- Odd(x);\n'
+    'Odd(x + 1) distinct :- Even(x);', {'Z': 1},
+    {'Even': lambda db: sorted({(x + k,) for (x,) in db['Z'] for k in range(0, 24, 2)}),
+     'Odd': lambda db: sorted({(x + k,) for (x,) in db['Z'] for k in range(1, 24, 2)})},
+    tags=('C03', 'C14'), workflow=True, max_rows={'quick': 1, 'thorough': 1}, together=True),
+  # bag-valued mutual recursion, cover of two without an auxiliary predicate, odd deep depth
+  S('rec_iter_even_odd_bag21', '@Recursive(Even, 21);\nEven(x) :- Z(x);\nEven(x + 1) :- Odd(x);\nOdd(x + 1) :- Even(x);',
+    {'Z': 1},
+    {'Even': lambda db: [(x + k,) for (x,) in db['Z'] for k in range(0, 22, 2)],
+     'Odd': lambda db: [(x + k,) for (x,) in db['Z'] for k in range(1, 22, 2)]},
+    tags=('C03', 'C14'), workflow=True, max_rows={'quick': 1, 'thorough': 2}),
+]
+
+ALL = CORE + AGG + ORDER + SUGAR + RECURSION
 
 
 def by_tag(tag):
